@@ -90,3 +90,40 @@ NTT_AST_TB = NTT_AST_TB.replace(
     "range k <= 32), distinct pointer parameters are distinct arrays, the r_loop/r_set template recursion is read off the instantiated "
     "specialisations of degree 16 and 64, permut_compute's idx_type is uint16_t (degrees 2^11..2^15), the element-wise twist "
     "(mulShoupList) and core::initialize's tables stay the hand model's")
+
+
+# ---- the two public entry points (appended): the generated evaluator of the twist statement, then the glue
+_translators_ntt_loops = translators_ntt
+
+
+def translators_ntt(repo):
+    """… and the PUBLIC ENTRY POINTS core::ntt_pow_phi / core::invntt_pow_invphi (tools/gen_entry_ast.py -> Generated/EntryAst.lean): the
+    twist statement `op = shoup(op * phis, shoupphis)` as a call of the generated expression-template evaluator (gen_simd_ast, gen_bool_ast,
+    gen_expr_ast are re-run first: Generated/ExprAst.lean), the loop over the moduli as a fold calling the generated core::ntt / core::inv_ntt
+    on the slice &op(cm,0) with row cm of the tables; the equalities with the hand model's nttPowPhi / invnttPowInvphi slice by slice
+    (Proofs/EntryAstEq.lean, Properties/C01Ast.lean) are re-checked by `lake build`."""
+    out = _translators_ntt_loops(repo)
+    for name in ("gen_simd_ast", "gen_bool_ast", "gen_expr_ast", "gen_entry_ast"):
+        r = cl.run(["python3", os.path.join(cl.HERE, name + ".py"), "--repo", repo])
+        info = {"ok": r.returncode == 0}
+        if r.returncode != 0:
+            info["err"] = (r.stdout + r.stderr)[-2000:]
+        else:
+            try:
+                info.update(json.loads(r.stdout.strip().splitlines()[-1]))
+                info.pop("node_kinds", None)
+            except Exception as e:
+                if name in ("gen_expr_ast", "gen_entry_ast"):
+                    info["ok"] = False
+                    info["err"] = "unparsable summary: %s" % e
+        if name in ("gen_expr_ast", "gen_entry_ast") or not info["ok"]:
+            out[name] = info
+    return out
+
+
+NTT_AST_TB = NTT_AST_TB.replace("the element-wise twist (mulShoupList) and core::initialize's tables stay the hand model's",
+    "entry points (tools/gen_entry_ast.py): lean/NflVerif/Model/CSemEntry.lean (the static tables are one InitRow per modulus; "
+    "reinterpret_cast<poly const&>(F[nmoduli][degree]) is the concatenation of the rows; a pointer into an array handed to core::ntt / "
+    "core::inv_ntt is the window [o, o+degree) resp. the suffix seen from offset 0 — the callees' index expressions are run by "
+    "gen_nttloop_ast.py for 2^1..2^15 and stay in [0, degree)), callees / members / get_modulus mapped BY NAME, the twist statement bound to "
+    "Generated/ExprAst.lean's evaluator of the same shape by the operator= clang selected")
